@@ -8,3 +8,6 @@ template void VPool::Deallocate(void*) noexcept;
 template void VPool::pvFlushDeallocate() noexcept;
 template bool VPool::pvUseCache() const noexcept;
 }
+namespace momo {
+template internal::Byte* VPool::pvNewBlock();
+}
